@@ -468,15 +468,6 @@ def harness_specs(tier):
 # ------------------------------------------------------------------------------------------------------------------
 # generator
 # ------------------------------------------------------------------------------------------------------------------
-def strip_kind(a):
-    return ' '.join(f for f in a.split(' ') if not f.startswith('kind='))
-
-
-def kind_cmp(a, b):
-    """the storage kind the resolver chose is reported (evidence), not judged"""
-    return strip_kind(a) == strip_kind(b)
-
-
 def comp_cases(t, seq, inst, mats, tags, rng, into=True, la='row'):
     s, toks, st, val = inst
     dtype = t['dtype']
@@ -491,7 +482,7 @@ def comp_cases(t, seq, inst, mats, tags, rng, into=True, la='row'):
     if st.c is not None:
         base += ' c=%s' % fmt(st.c.shape)
     base += ' ops=%s' % ';'.join(toks)
-    cmpf = float_cmp if dtype == np.float32 else (kind_cmp if '-DC10_REPORT_KIND' in t['extra'] else None)
+    cmpf = float_cmp if dtype == np.float32 else None
     vs, vd = fmt(val.shape), toks_of(val, dtype)
     nt = n >= 2 or bool(st.bops) or la not in ('row', 'col')
     for mat in mats:
@@ -503,6 +494,9 @@ def comp_cases(t, seq, inst, mats, tags, rng, into=True, la='row'):
                        mreq='eval_fresh vshape=%s vdata=%s%s' % (vs, vd, ' col=0' if eager_last else ''),
                        tags=tags + ['comp', 'leaf=' + la, 'depth=%d' % n, 'mat=%s' % ('lazy' if mat == 0 else 'all-eager' if mat == (1 << n) - 1 else 'mixed')] +
                        ['op=' + x for x in seq] + (['tree'] if st.bops else []))
+    if '-DC10_REPORT_KIND' in t['extra']:
+        # which storage the resolver inferred: recorded in the evidence, not judged (no oracle, no model)
+        yield Case('comp %s mat=0 kind=1' % base, t['name'], oracle=None, model=False, nontrivial=False, tags=tags + ['kind-probe', 'leaf=' + la])
     if into and val.ndim >= 1 and '-DC10_NO_INTO' not in t['extra']:
         vshape = list(val.shape)
         wrong = [vshape[::-1], [prod(vshape)], vshape + [1], [1] + vshape, [e + 1 for e in vshape], vshape[:-1] + [max(1, vshape[-1] - 1)]]
